@@ -44,7 +44,7 @@ func (r *Replayer) Replay(process func(record []byte) error) (err error) {
 		}
 	}()
 
-	for _, path := range walFiles {
+	for i, path := range walFiles {
 		reader, err := r.walOptions.readerFactory(path)
 		if err != nil {
 			return fmt.Errorf("error while creating WAL reader under '%s': %w", path, err)
@@ -60,6 +60,12 @@ func (r *Replayer) Replay(process func(record []byte) error) (err error) {
 			bytes, err := reader.ReadNext()
 			// io.EOF signals that no records are left to be read
 			if errors.Is(err, io.EOF) {
+				break
+			}
+
+			// a crash while a record is appended can leave a partially written record at the end of the newest file,
+			// every record before it is intact and nothing can follow it.
+			if i == len(walFiles)-1 && errors.Is(err, io.ErrUnexpectedEOF) {
 				break
 			}
 
